@@ -189,7 +189,7 @@ void JUnitTestOutput::writeTestSuiteSummary()
                     StringFromFormat(
                             "<testsuite errors=\"0\" failures=\"%d\" hostname=\"localhost\" name=\"%s\" tests=\"%d\" time=\"%d.%03d\" timestamp=\"%s\">\n",
                             (int)impl_->results_.failureCount_,
-                            impl_->results_.group_.asCharString(),
+                            encodeXmlText(impl_->results_.group_).asCharString(),
                             (int) impl_->results_.testCount_,
                             (int) (impl_->results_.groupExecTime_ / 1000), (int) (impl_->results_.groupExecTime_ % 1000),
                             GetPlatformSpecificTimeString());
@@ -221,13 +221,13 @@ void JUnitTestOutput::writeTestCases()
     while (cur) {
         SimpleString buf = StringFromFormat(
                 "<testcase classname=\"%s%s%s\" name=\"%s\" assertions=\"%d\" time=\"%d.%03d\" file=\"%s\" line=\"%d\">\n",
-                impl_->package_.asCharString(),
+                encodeXmlText(impl_->package_).asCharString(),
                 impl_->package_.isEmpty() ? "" : ".",
-                impl_->results_.group_.asCharString(),
-                cur->name_.asCharString(),
+                encodeXmlText(impl_->results_.group_).asCharString(),
+                encodeXmlText(cur->name_).asCharString(),
                 (int) (cur->checkCount_ - impl_->results_.totalCheckCount_),
                 (int) (cur->execTime_ / 1000), (int)(cur->execTime_ % 1000),
-                cur->file_.asCharString(),
+                encodeXmlText(cur->file_).asCharString(),
                 (int) cur->lineNumber_);
         writeToFile(buf.asCharString());
 
@@ -248,7 +248,7 @@ void JUnitTestOutput::writeFailure(JUnitTestCaseResultNode* node)
 {
     SimpleString buf = StringFromFormat(
             "<failure message=\"%s:%d: %s\" type=\"AssertionFailedError\">\n",
-            node->failure_->getFileName().asCharString(),
+            encodeXmlText(node->failure_->getFileName()).asCharString(),
             (int) node->failure_->getFailureLineNumber(),
             encodeXmlText(node->failure_->getMessage()).asCharString());
     writeToFile(buf.asCharString());
